@@ -22,7 +22,7 @@ XIXI_BUGS = [
     ('MergeMarksUnflushed', dict(Features='{"merge", "delete", "powerloss", "restart"}', MaxOps=3, MaxFaults=1, Vals='{1, 2}', BigVals='{}'), ['RecoveredOK']),
     ('LeftoverKept', dict(Features='{"merge", "delete", "crash", "restart"}', MaxOps=4, MaxFaults=1, MaxMerges=2, MaxRestarts=2, Vals='{1}', BigVals='{}'), ['RecoveredOK', 'MapSemantics']),
     ('LazyHint', dict(Features='{"merge", "delete", "restart"}', MaxOps=3, MaxMerges=2, MaxRestarts=2, Vals='{1}', BigVals='{}'), ['RecoveredOK', 'MapSemantics']),
-    ('AdoptBreaks', dict(Features='{"merge", "crash", "restart"}', Keys='{1, 2, 3}', MaxOps=5, MaxFaults=1, Vals='{1, 2}', BigVals='{}'), ['RecoveredOK', 'MapSemantics']),
+    ('AdoptBreaks', dict(Features='{"merge", "crash", "restart"}', Keys='{1, 2, 3}', Limit=1, MaxOps=5, MaxFaults=1, Vals='{1, 2}', BigVals='{}'), ['RecoveredOK', 'MapSemantics']),
     # (since the fix F30 the marker waits for the database lock, which an open batch holds: the early publication
     #  is only harmful together with the unflushed marker)
     ('BatchFlushPublishes', dict(Features='{"batch", "delete", "merge", "crash"}', MaxOps=4, MaxFaults=1, MaxRestarts=0, Vals='{1}', BigVals='{}', Bug2='"MergeMarksUnflushed"'), ['RecoveredOK']),
@@ -67,6 +67,8 @@ def run(a):
         good &= expect_violation(ctx, mc, 'DirLock EarlyFailLeaksLock')
         mc = dict(module='DirLock', name='ST_DirLock3', cfg=DIRLOCK_CFG.replace('Bug = {}', 'Bug = {"CloseUnlocksFirst"}'), consts=dict(Openers='{"p1g0", "p2g0"}', MaxSteps=8))
         good &= expect_violation(ctx, mc, 'DirLock CloseUnlocksFirst')
+        mc = dict(module='DirLock', name='ST_DirLock4', cfg=DIRLOCK_CFG.replace('Bug = {}', 'Bug = {"MergeDropsLock"}'), consts=dict(Openers='{"p1g0", "p2g0"}', MaxSteps=8))
+        good &= expect_violation(ctx, mc, 'DirLock MergeDropsLock')
 
         print('2. Tampering with an accepted real-engine trace: TLC must reject it')
         driver = vlib.build_driver(ctx)
